@@ -388,7 +388,9 @@ def run(ctx):
             s = gen.gen_doc(rng, max_nodes=rng.choice([3, 6, 12]), hostile=rng.choice([0.1, 0.5]))
             for _, n in model.walk(s):
                 if n["k"] == "sec":
-                    n["type"] = rng.choice([n["type"], "recording", "cell", "customtype", "subject"])
+                    # any type of the shipped sub-class table (fetched independently of the library), the custom one, or free text
+                    n["type"] = rng.choice([n["type"], "recording", "customtype", rng.choice(sorted(default_subclasses())),
+                                            rng.choice(sorted(default_subclasses())).upper()])
                 elif n["k"] == "prop" and n["dtype"] in ("string", "text") and n["values"] and rng.random() < 0.15:
                     n["values"].insert(rng.randrange(len(n["values"]) + 1), "")     # the empty text is a value like any other
             specs.append(s)
